@@ -46,7 +46,6 @@ def run_worker(prop: str, shard: dict, workdir: Path, idx: int, hard_timeout: fl
     env["VF_REPO"] = REPO
     env.setdefault("PYTHONHASHSEED", "0")
     env["PYTHONDONTWRITEBYTECODE"] = "1"
-    env["ACCELFORGE_VERIF"] = "1"
     env.setdefault("OMP_NUM_THREADS", "1")
     env.setdefault("NUMBA_NUM_THREADS", "1")
     env.update(shard.get("_env", {}))
